@@ -144,6 +144,8 @@ func NewConnWithOpts(connection *coapNet.Conn, cfg *Config, opts ...Option) *Con
 		cc.processReceivedMessage = processReceivedMessage
 	}
 	cc.receivedMessageReader = client.NewReceivedMessageReader(&cc, cfg.ReceivedMessageQueueSize)
+	// a request issued from a handler that has to wait for a limit must not hold up the receive loop
+	limitParallelRequests.SetOnWait(cc.receivedMessageReader.TryToReplaceLoop)
 	return &cc
 }
 
